@@ -142,6 +142,10 @@ func SignJWT(ctx context.Context, key crypto.Signer, alg jwa.SignatureAlgorithm,
 	if err != nil {
 		return "", fmt.Errorf("invalid JWT headers: %w", err)
 	}
+	if hdr.JWK() != nil && !isPublicJWK(hdr.JWK()) {
+		// see SignJWS
+		return "", errors.New("refusing to sign JWT with private key in JWK header")
+	}
 
 	sig, err = jwt.Sign(t, jwt.WithKey(jwa.SignatureAlgorithm(alg.String()), key, jws.WithProtectedHeaders(hdr)))
 	token = string(sig)
@@ -264,10 +268,7 @@ func SignJWS(ctx context.Context, payload []byte, protectedHeaders map[string]in
 		// The JWX library is fine with creating a JWK for a private key (including the private exponents), so
 		// we want to make sure the `jwk` header (if present) does not (accidentally) contain a private key.
 		// That would lead to the node leaking its private key material in the resulting JWS which would be very, very bad.
-		var jwkAsPrivateKey crypto.Signer
-		if err := headers.JWK().Raw(&jwkAsPrivateKey); err == nil {
-			// `err != nil` is good in this case, because that means the key is not assignable to crypto.Signer,
-			// which is the interface implemented by all private key types.
+		if !isPublicJWK(headers.JWK()) {
 			return "", errors.New("refusing to sign JWS with private key in JWK header")
 		}
 	}
@@ -292,6 +293,20 @@ func SignJWS(ctx context.Context, payload []byte, protectedHeaders map[string]in
 		return "", fmt.Errorf("unable to sign JWS %w", err)
 	}
 	return string(data), nil
+}
+
+// isPublicJWK returns whether the JWK is a public key: everything else (private keys, also those that don't implement
+// crypto.Signer such as X25519 keys, and symmetric keys) must never end up in a header.
+func isPublicJWK(key jwk.Key) bool {
+	switch key.(type) {
+	case jwk.ECDSAPrivateKey, jwk.RSAPrivateKey, jwk.OKPPrivateKey, jwk.SymmetricKey:
+		// must come first: an OKP private key also satisfies the jwk.OKPPublicKey interface
+		return false
+	case jwk.ECDSAPublicKey, jwk.RSAPublicKey, jwk.OKPPublicKey:
+		return true
+	default:
+		return false
+	}
 }
 
 func EncryptJWE(payload []byte, protectedHeaders map[string]interface{}, publicKey interface{}) (message string, err error) {
